@@ -235,13 +235,17 @@ def rule_attr_set(rep, crate):
             rep.viol(rid, 'attr-set:return', 'strip_attributes returns %s, expected the whole item re-rendered' % d[:100], loc(s))
 
 
+ok_values = set()     # side result of bool_reach: bool payloads of `Ok(..)` assigned to the return place
+
+
 def bool_reach(m, start, known):
     """Calls and `Err` constructions reachable from block `start` when the boolean locals in `known` have the given values;
     the values are propagated through copies/moves and `Not`, and a switch on a known value is followed on its taken
     edge only.  Returns (callee names, number of Err aggregates assigned towards the return place)."""
     calls, errs = set(), 0
     seen = set()
-    work = [(start, tuple(sorted(known.items())))]
+    ok_values.clear()
+    work = [(start, tuple(sorted(known.items(), key=str)))]
     while work:
         b, envt = work.pop()
         if (b, envt) in seen or b < 0:
@@ -254,12 +258,25 @@ def bool_reach(m, start, known):
             rhs = st['rhs']
             tgt = lhs['local'] if not lhs['proj'] else None
             val = None
+            pval = None        # value of the Ok / Continue payload carried by the assigned Result-like local
             if rhs['rv'] == 'use':
                 p = op_place(rhs['a'])
                 if p is not None and not p['proj'] and p['local'] in env:
                     val = env[p['local']]
+                elif p is not None and not p['proj'] and ('p', p['local']) in env:
+                    pval = env[('p', p['local'])]
+                elif p is not None and ('p', p['local']) in env and fields_of(p) == ['0'] and any(q['k'] == 'downcast' and q.get('variant') in ('Ok', 'Continue') for q in p['proj']):
+                    val = env[('p', p['local'])]
                 elif rhs['a'].get('op') == 'const' and const_int(rhs['a']) in (0, 1) and 'bool' in str(rhs['a'].get('ty')):
                     val = bool(const_int(rhs['a']))
+            elif rhs['rv'] == 'agg' and rhs['kind'].get('variant') in ('Ok', 'Continue') and len(rhs['ops']) == 1:
+                p = op_place(rhs['ops'][0])
+                if p is not None and not p['proj'] and p['local'] in env:
+                    pval = env[p['local']]
+                elif rhs['ops'][0].get('op') == 'const' and const_int(rhs['ops'][0]) in (0, 1) and 'bool' in str(rhs['ops'][0].get('ty')):
+                    pval = bool(const_int(rhs['ops'][0]))
+                if tgt == 0 and pval is not None:
+                    ok_values.add(pval)
             elif rhs['rv'] == 'un' and rhs.get('uop') == 'Not':
                 p = op_place(rhs['a'])
                 if p is not None and not p['proj'] and p['local'] in env:
@@ -271,6 +288,10 @@ def bool_reach(m, start, known):
                     env.pop(tgt, None)
                 else:
                     env[tgt] = val
+                if pval is None:
+                    env.pop(('p', tgt), None)
+                else:
+                    env[('p', tgt)] = pval
         t = blk['term']
         nxt = []
         if t['t'] == 'switch':
@@ -285,11 +306,17 @@ def bool_reach(m, start, known):
             calls.add(m.callee_name(t))
             if t['dest'] and not t['dest']['proj']:
                 env.pop(t['dest']['local'], None)
+                env.pop(('p', t['dest']['local']), None)
+                # `?`: Try::branch keeps the payload
+                if re.search(r'ops::Try>::branch$', m.callee_name(t)) and t['args']:
+                    p = op_place(t['args'][0])
+                    if p is not None and not p['proj'] and ('p', p['local']) in env:
+                        env[('p', t['dest']['local'])] = env[('p', p['local'])]
             if t['target'] >= 0:
                 nxt = [t['target']]
         else:
             nxt = [x for x in m.succ(b)]
-        et = tuple(sorted(env.items()))
+        et = tuple(sorted(env.items(), key=str))
         for n in nxt:
             work.append((n, et))
     return sorted(calls), errs
@@ -327,7 +354,16 @@ def rule_cli(rep, crate):
     # or a private helper main hands `args.check` to)
     m = main
     check_param = None
-    if not find_calls(main, r'^eq_ignore_newlines$'):
+    cmp_helper = None
+    main_mods = [(b, t) for b, t in main.calls() if FS_MODIFY.search(main.callee_name(t))]
+    if not find_calls(main, r'^eq_ignore_newlines$') and main_mods:
+        # the comparison alone moved into a private helper `fn changed(path, output) -> Result<bool>`; the decision stays in main
+        for f in crate.reachable_fns([main]).values():
+            if f.name != 'main' and f.kind == 'Fn' and find_calls(f, r'^eq_ignore_newlines$') and not [1 for _b, t in f.calls() if FS_MODIFY.search(f.callee_name(t))]:
+                cmp_helper = f
+    if cmp_helper is not None:
+        pass
+    elif not find_calls(main, r'^eq_ignore_newlines$'):
         for f in crate.reachable_fns([main]).values():
             if f.name != 'main' and find_calls(f, r'^eq_ignore_newlines$'):
                 m = f
@@ -363,7 +399,7 @@ def rule_cli(rep, crate):
         for sb in controlling_switches(m, b):
             locs, calls, _f = control_slice(m, m.blocks[sb]['term']['discr'])
             deps |= calls
-        if not any(re.search(r'eq_ignore_newlines$', c) for c in deps):
+        if not any(re.search(r'eq_ignore_newlines$', c) or (cmp_helper is not None and c == cmp_helper.name) for c in deps):
             rep.viol(rid, 'cli:write-unconditional:%s' % m.callee_name(t).split('::')[-1], 'the write does not depend on the comparison with the existing file', loc(m, t['line']))
     # on the check edge: no Ok(()) result, an error is created
     for c in checks:
@@ -378,11 +414,41 @@ def rule_cli(rep, crate):
         for sb in controlling_switches(m, c['bb']):
             _l, calls, _f = control_slice(m, m.blocks[sb]['term']['discr'])
             deps |= calls
-        if not any(re.search(r'eq_ignore_newlines$', x) for x in deps):
+        if not any(re.search(r'eq_ignore_newlines$', x) or (cmp_helper is not None and x == cmp_helper.name) for x in deps):
             rep.viol(rid, 'cli:check-order', 'args.check is tested without first comparing with the existing file: an up-to-date file could fail --check', loc(m))
     # `changed` is exactly !eq_ignore_newlines(existing, output) or the NotFound arm
     eqs = find_calls(m, r'^eq_ignore_newlines$')
-    if len(eqs) == 1:
+    if cmp_helper is not None:
+        h = cmp_helper
+        heq = find_calls(h, r'^eq_ignore_newlines$')
+        hcalls = [(b, t) for b, t in main.calls() if main.callee_name(t) == h.name]
+        rep.inst(rid, 'main:compare-helper', detail=h.name)
+        if len(heq) != 1 or len(hcalls) != 1:
+            rep.viol(rid, 'cli:compare', 'expected one eq_ignore_newlines call in %s and one call of it in main' % h.name, loc(h))
+        else:
+            a = [desc(h, x) for x in heq[0][1]['args']]
+            hargs = [desc(main, x) for x in hcalls[0][1]['args']]
+            rep.inst(rid, 'main:compare', detail=dict(helper=a, call=hargs))
+            if 'fs_err::read_to_string' not in a[0] or not re.search(r'param\d', a[1]) or 'output' not in [main.names.get(l) for x in hcalls[0][1]['args'] for l in main.slice(x).locals]:
+                rep.viol(rid, 'cli:compare-operands', '%s compares %s, called with %s' % (h.name, a, hargs), loc(h, heq[0][1]['line']))
+            summary = {}
+            for val in (True, False):
+                bool_reach(h, heq[0][1]['target'], {heq[0][1]['dest']['local']: val})
+                summary[val] = set(ok_values)
+            rep.inst(rid, 'main:compare-helper:summary', detail={str(k): sorted(v) for k, v in summary.items()})
+            if len(summary[True]) != 1 or len(summary[False]) != 1 or summary[True] == summary[False]:
+                rep.viol(rid, 'cli:compare-polarity', 'the helper %s does not return one boolean for "equal" and the other for "differs" (%s)' % (h.name, summary), loc(h))
+            else:
+                hb, ht = hcalls[0]
+                for val in (True, False):
+                    calls, errs = bool_reach(main, ht['target'], {('p', ht['dest']['local']): list(summary[val])[0]})
+                    wr = [c for c in calls if FS_MODIFY.search(c)]
+                    rep.inst(rid, 'main:polarity:%s' % ('equal' if val else 'differs'), detail=dict(writes=wr, errs=errs))
+                    if val and (wr or errs):
+                        rep.viol(rid, 'cli:compare-polarity', 'when the output file already holds the generated code main can still %s' % ('write the file' if wr else 'return an error'), loc(main))
+                    if not val and not (wr or errs):
+                        rep.viol(rid, 'cli:compare-polarity', 'when the output file differs from the generated code main neither writes it nor reports an error', loc(main))
+    elif len(eqs) == 1:
         a = [desc(m, x) for x in eqs[0][1]['args']]
         rep.inst(rid, 'main:compare', detail=a)
         if 'fs_err::read_to_string' not in a[0] or 'output' not in [m.names.get(l) for l in m.slice(eqs[0][1]['args'][1], through_calls=True).locals]:
